@@ -15,16 +15,18 @@ UNITS = [
     Unit(name="QueryRef::path", file=F, impl=QR, fn="path", order=70, serves=["C03"],
          ensures=[("def", "r == self.1")]),
     Unit(name="QueryRef::from_pointer", file=F, impl="impl<'a, T: Queryable> From<Pointer<'a, T>> for QueryRef<'a, T>", fn="from", order=70,
-         serves=["C01", "C03"],
-         ensures=[("def", "r.0 == pointer.inner && r.1 == pointer.path")]),
+         serves=["C01", "C03"], trait_method=True,
+         ensures=[("from_spec", "r == QueryRef(pointer.inner, pointer.path)")]),
     Unit(name="js_path_process", file=F, fn="js_path_process", order=71, serves=["C01", "C02", "C03", "C08"],
          requires=[("wf", "wf_segments(path.segments@)")],
          ensures=[
              ("ok", "r is Ok"),
              ("nodelist", "r matches Ok(v) && (union_free(path.segments@) ==> qnodes(v@) == rfc_query(*path, value))"),
          ],
-         shapes=[("R2v", 1), ("E6", 2)],
-         text_rewrites=[("E6", "Into::into", "VfInto::vf_into", 1)]),
+         shapes=[("R2v", 1)],
+         # Pointer -> QueryRef goes through std's From/Into contract (FromSpecImpl in helpers.rs);
+         # T -> JsonPathError (format!) is the opaque E6 conversion
+         text_rewrites=[("E6", "Err(v.into())", "Err(v.vf_into())", 1)]),
     Unit(name="js_path", file=F, fn="js_path", order=72, serves=["C01", "C08"],
          ensures=[
              ("parse_err", "parsed(path@) is None ==> r is Err"),
